@@ -235,7 +235,10 @@ def execute(case):
                        "point": resolve_penalty(pen["ppen"], n, p, kp, pen["pscale"]),
                        "sparse": resolve_penalty("sparse", n, p, kc, pen["cscale"])}
         if case["api"] == "MVCAPA":
-            df = pd.DataFrame(X)
+            # the row index rotates over default / shifted range / datetime (labels are positional whatever the index: C05, last clause of C16)
+            which = (n + p + int(case.get("ignore", False))) % 3
+            index = [None, pd.RangeIndex(40, 40 + n), pd.date_range("2021-03-01", periods=n, freq="D")][which]
+            df = pd.DataFrame(X, index=index)
             det.fit(df)
             y = det.predict(df)
             out["anoms"] = [(int(iv.left), int(iv.right), [int(c) for c in cols]) for iv, cols in zip(y["ilocs"], y["icolumns"])]
